@@ -16,6 +16,11 @@ var bigOne = big.NewInt(1)
 // ---- obligations ----
 
 func (x *Exec) query(st *State, goal string) string {
+	return x.queryOpt(st, goal, false)
+}
+
+// queryOpt with light=true drops quantified path assumptions (sound: fewer hypotheses); used as a fast first attempt.
+func (x *Exec) queryOpt(st *State, goal string, light bool) string {
 	var b strings.Builder
 	b.WriteString("(set-logic ALL)\n")
 	b.WriteString("(declare-sort F32 0)\n(declare-sort F64 0)\n(declare-sort Str 0)\n")
@@ -32,6 +37,9 @@ func (x *Exec) query(st *State, goal string) string {
 		b.WriteByte('\n')
 	}
 	for _, l := range st.lines {
+		if light && strings.HasPrefix(l, "(assert ") && (strings.Contains(l, "(forall ") || strings.Contains(l, "(exists ")) {
+			continue
+		}
 		b.WriteString(l)
 		b.WriteByte('\n')
 	}
@@ -58,6 +66,9 @@ func (x *Exec) oblige(st *State, kind, label, pos, goal string, props []string) 
 	}
 	if len(props) == 0 {
 		props = x.con.Props
+		if len(x.con.Safety) > 0 && (kind == "nopanic" || kind == "overflow" || strings.HasPrefix(kind, "pre@") || kind == "nofatal") {
+			props = x.con.Safety
+		}
 	}
 	ob := &Ob{Name: name, Kind: kind, Label: label, Func: x.con.Name, Pos: pos, Props: props, Goal: goal,
 		Path: strings.Join(st.pathDesc, " ")}
@@ -66,6 +77,9 @@ func (x *Exec) oblige(st *State, kind, label, pos, goal string, props []string) 
 		ob.Solver = "trivial"
 	} else {
 		ob.Query = x.query(st, goal)
+		if !strings.Contains(goal, "(forall ") && !strings.Contains(goal, "(exists ") {
+			ob.Light = x.queryOpt(st, goal, true)
+		}
 	}
 	x.obs = append(x.obs, ob)
 }
